@@ -156,3 +156,20 @@ Proof.
   - rewrite <- app_assoc in H. cbn [app] in H. change [1%nat; l] with (1%nat :: [l]) in H.
     apply zeros_one_inj in H. lia.
 Qed.
+
+(* the keys of one round, in call order: one per (client, leaf), pairwise distinct *)
+Lemma round_keys_length key t clients leaves : length (round_keys key t clients leaves) = (clients * leaves)%nat.
+Proof.
+  unfold round_keys. rewrite <- (seq_length clients 0) at 2. generalize (seq 0 clients). intros cs.
+  induction cs as [|c cs IH]; [reflexivity|]. cbn [flat_map length]. rewrite app_length, map_length, seq_length, IH. reflexivity.
+Qed.
+Lemma round_keys_all_distinct t clients leaves :
+  NoDup (round_keys usq_key t clients leaves) /\ NoDup (round_keys tern_key t clients leaves) /\
+  NoDup (round_keys drive_key t clients leaves) /\ NoDup (round_keys rusq_key t clients leaves).
+Proof.
+  repeat split; apply round_keys_NoDup; intros c l c' l' E.
+  - destruct (usq_key_inj _ _ _ _ _ _ E) as (_ & ? & ?); tauto.
+  - destruct (usq_key_inj _ _ _ _ _ _ E) as (_ & ? & ?); tauto.
+  - destruct (drive_key_inj _ _ _ _ _ _ E) as (_ & ? & ?); tauto.
+  - destruct (rusq_key_inj _ _ _ _ _ _ E) as (_ & ? & ?); tauto.
+Qed.
